@@ -259,8 +259,30 @@ func runOracleTally(r *hx.R, n int, w *hx.W, _ []string) error {
 			if err := testapp.FundModuleAccount(nibiru.BankKeeper, ctx, "inflation", total); err != nil {
 				return err
 			}
-			if err := k.AllocateRewards(ctx, "inflation", total, uint64(r.Range(1, 6))); err != nil {
-				return err
+			// the allocation itself is an operation of the protocol: the model predicts the stored per-period amount and the balance
+			modA := nibiru.AccountKeeper.GetModuleAddress(oracletypes.ModuleName)
+			stB := renderOracleOut(nibiru, ctx, modA)
+			periods := uint64(r.Range(1, 6))
+			if r.Chance(1, 3) { // totals around a multiple of the period count: the remainder decides between truncation and rounding
+				base := r.Range(1, 2_000_000)
+				amt := base*int64(periods) + r.Range(0, int64(periods)-1)
+				total = sdk.NewCoins(sdk.NewInt64Coin(denoms.NIBI, amt))
+				_ = testapp.FundModuleAccount(nibiru.BankKeeper, ctx, "inflation", total)
+			}
+			nextID := k.RewardsID.Peek(ctx)
+			var aerr error
+			res := hx.Recover(func() string {
+				aerr = k.AllocateRewards(ctx, "inflation", total, periods)
+				if aerr != nil {
+					return "err"
+				}
+				stA := renderOracleOut(nibiru, ctx, modA)
+				return fmt.Sprintf("RW=%s BAL=%s", stA["RW"], stA["BAL"])
+			})
+			w.Count("allocate:" + strings.SplitN(res, " ", 2)[0][:2])
+			w.Step(fmt.Sprintf("oracle allocate %d %s %d RW=%s BAL=%s", nextID, total.AmountOf(denoms.NIBI), periods, stB["RW"], stB["BAL"]), res)
+			if aerr != nil {
+				return aerr
 			}
 		}
 		if r.Chance(1, 10) { // under-funded module account: drain it
